@@ -27,6 +27,8 @@ PROFILES = {
                       p_buf=1.0, n_ind=(0, 2), p_obj=0.2),
     'objectives': dict(horizons=[None, None, 7, 20, 30, 30, 40, 200], cons=dict(task=3, opt=1, fol=0, res=1, buf=1), p_opt=0.35, p_copt=0.05, resources=0.8, p_bad=0.0, ncons=(0, 4),
                        p_buf=0.3, n_ind=(0, 2), p_obj=1.0),
+    'optional_ind': dict(dues=[None, 6, 9, 15, 25], horizons=[None, None, 20, 30, 40, 200], cons=dict(task=3, opt=3, fol=0, res=1, buf=2), p_opt=0.7, p_copt=0.05,
+                         resources=0.9, p_bad=0.0, ncons=(0, 4), p_buf=0.4, n_ind=(1, 4), p_obj=0.2),
     'malformed': dict(cons=dict(task=4, opt=3, fol=2, res=4), p_opt=0.35, p_copt=0.3, resources=0.9, p_bad=1.0, ncons=(1, 5)),
 }
 
